@@ -5,7 +5,7 @@
 
 use crate::engine::{Acc, Fail};
 use crate::entity::{EntitySpec, Mtime, PStep, ReqSpec};
-use crate::props::{c01, c03, c12, c13, c16, c11, stream};
+use crate::props::{c01, c03, c12, c13, c16, stream};
 use crate::reqgen;
 use crate::util::Bs;
 
@@ -132,6 +132,7 @@ fn collect(id: &'static str, r: Result<(), Fail>, out: &mut Vec<(&'static str, F
 
 /// serve(): totality (C13) + framing (C01) + content (C02) + hints/eos (C12) + re-polls (C20).
 pub fn serve_total(data: &[u8]) -> Vec<(&'static str, Fail)> {
+    crate::engine::LIGHT.store(true, std::sync::atomic::Ordering::Relaxed);
     let mut out = Vec::new();
     let Some(c) = decode_serve(data) else { return out };
     let mut acc = Acc::new();
@@ -202,15 +203,15 @@ pub fn decode_stream(data: &[u8]) -> stream::SCase {
     let payload = [Payload::Hash, Payload::Runs, Payload::Mixed, Payload::Zeros][r.pick(4)];
     let extra_polls = r.pick(5);
     let mut ops = Vec::new();
-    while !r.done() && ops.len() < 48 {
+    while !r.done() && ops.len() < 32 {
         let o = r.u8();
         let sizes = stream::sizes_for(chunk);
         let size = |r: &mut Rd| -> u32 {
             let s = r.u8();
             if s < 200 {
-                sizes[s as usize % sizes.len()].min(20_000)
+                sizes[s as usize % sizes.len()].min(3_000)
             } else {
-                (r.u16() as u32) % 20_000
+                (r.u16() as u32) % 3_000
             }
         };
         ops.push(match o % 16 {
@@ -237,25 +238,39 @@ pub fn decode_stream(data: &[u8]) -> stream::SCase {
 pub fn stream_ops(data: &[u8]) -> Vec<(&'static str, Fail)> {
     let mut out = Vec::new();
     let c = decode_stream(data);
-    let mut acc = Acc::new();
-    let has_fault = c.ops.iter().any(|o| matches!(o, stream::Op::Abort | stream::Op::DropBody));
-    if has_fault {
-        collect("C11", c11::check(&c, &mut acc), &mut out);
-    } else if c.gzip.is_some() {
-        collect("C09", stream::check_stream_pub(&c, &mut acc, true), &mut out);
-    } else {
-        collect("C08", stream::check_stream_pub(&c, &mut acc, false), &mut out);
+    let run = stream::execute(&c);
+    let ctx = |f: Fail| Fail {
+        sig: f.sig,
+        msg: format!("{}; case {}; trace {}", f.msg, serde_json::to_string(&c).unwrap_or_default(), run.trace.summary()),
+    };
+    if let Some(f) = stream::first_issue(&run, &["internal:"]) {
+        out.push(("INTERNAL", ctx(f)));
+        return out;
     }
-    collect("C12", stream::check_trace_pub(&c, &mut acc, false), &mut out);
-    collect("C20", stream::check_trace_pub(&c, &mut acc, true), &mut out);
-    if !acc.internal_errors.is_empty() {
-        out.push((
-            "INTERNAL",
-            Fail {
-                sig: "internal".into(),
-                msg: acc.internal_errors.join("; "),
-            },
-        ));
+    let has_fault = c.ops.iter().any(|o| matches!(o, stream::Op::Abort | stream::Op::DropBody));
+    let mode = if c.gzip.is_some() { "gzip" } else { "identity" };
+    if has_fault {
+        if let Some(f) = stream::first_issue(&run, &["abort:", "drop:"]) {
+            // same signature as c11::check
+            out.push(("C11", ctx(Fail { sig: format!("{}:{mode}", f.sig), msg: f.msg })));
+        }
+    } else if c.gzip.is_some() {
+        if let Some(f) = stream::first_issue(&run, &["gz:", "w:"]) {
+            out.push(("C09", ctx(f)));
+        }
+    } else if let Some(f) = stream::first_issue(&run, &["w:"]) {
+        out.push(("C08", ctx(f)));
+    }
+    let what = if c.gzip.is_some() { "streaming-gzip" } else { "streaming-identity" };
+    if !run.trace.steps.iter().any(|s| matches!(s.ev, crate::drain::Ev::Panic(_))) {
+        if let Err(f) = crate::drain::check_terminated_stays(&run.trace, what) {
+            out.push(("C20", ctx(f)));
+        }
+    }
+    if !run.body_dropped {
+        if let Err(f) = crate::drain::check_eos_truthful(&run.trace, what).and_then(|_| crate::drain::check_hints(&run.trace, false, what)) {
+            out.push(("C12", ctx(f)));
+        }
     }
     out
 }
